@@ -17,7 +17,54 @@ use std::collections::BTreeMap;
 use std::num::NonZeroUsize;
 
 pub mod sync {
-    pub use shuttle::sync::Mutex;
+    //! Mutex handed to the solvers (H2): shuttle's mutex plus one scheduling point right
+    //! AFTER every successful acquisition. Without it a critical section that contains no
+    //! other synchronisation would be atomic for the simulator, and a `try_lock()` of a
+    //! second worker could never observe the lock held — which real threads can.
+    use shuttle::sync::{LockResult, MutexGuard, TryLockResult};
+    use std::fmt;
+
+    pub struct Mutex<T: ?Sized>(shuttle::sync::Mutex<T>);
+
+    fn held_point() {
+        shuttle::thread::sleep(std::time::Duration::from_nanos(0));
+    }
+
+    impl<T> Mutex<T> {
+        pub fn new(value: T) -> Self {
+            Mutex(shuttle::sync::Mutex::new(value))
+        }
+
+        pub fn into_inner(self) -> LockResult<T> {
+            self.0.into_inner()
+        }
+    }
+
+    impl<T: ?Sized> Mutex<T> {
+        pub fn lock(&self) -> LockResult<MutexGuard<'_, T>> {
+            let guard = self.0.lock();
+            held_point();
+            guard
+        }
+
+        pub fn try_lock(&self) -> TryLockResult<MutexGuard<'_, T>> {
+            let guard = self.0.try_lock();
+            if guard.is_ok() {
+                held_point();
+            }
+            guard
+        }
+
+        pub fn get_mut(&mut self) -> LockResult<&mut T> {
+            self.0.get_mut()
+        }
+    }
+
+    impl<T: ?Sized + fmt::Debug> fmt::Debug for Mutex<T> {
+        fn fmt(&self, f: &mut fmt::Formatter<'_>) -> fmt::Result {
+            f.write_str("Mutex { .. }")
+        }
+    }
 }
 
 /// Replacement for `std::thread` as far as `lib.rs` uses it (H5).
